@@ -604,7 +604,7 @@ def run(ctx):
         'Query per version; DiscoverVersions per version and client list (fixed + seeded); ProtocolVersion / float(str()) comparisons on a '
         'grid; payload classes with version-conditional fields written and read under every version; whole requests through KmipSession. '
         'A case is distinct by (kind, version, operation/attribute names/client list/class+tag).' % (len(list(OP)), len(UNSUPPORTED)))
-    ctx.regen(only=['attrrules', 'versions', 'enums'])
+    ctx.regen(only=['attrrules', 'versions', 'enums', 'schemas'])
     ctx.prove('props/C16.v')
     cases, meta = [], []
     comparison_cases(ctx, cases, meta)
